@@ -77,7 +77,9 @@ def stream_dict(st, zone: str, name: str, htc: float = 1.0) -> dict:
 
 
 def utility_dict(name: str, typ: str, ts: float, tt: float, dt: float = 0.0, htc: float = 1.0,
-                 price: float = 10.0, heat_flow: float = 0.0) -> dict:
+                 price: float = 10.0, heat_flow: float = 77.7) -> dict:
+    # the INPUT heat_flow of a utility is not a duty: it is non-zero on purpose (e.g. values pasted back from an earlier
+    # result) - targeting has to start every utility from zero
     return {"name": name, "type": typ, "t_supply": float(ts), "t_target": float(tt), "heat_flow": float(heat_flow),
             "dt_cont": float(dt), "htc": float(htc), "price": float(price)}
 
